@@ -198,7 +198,7 @@ META = dict(functions=th.TREE_FUNCTIONS + ["graphtage.levenshtein.levenshtein_di
             files=th.TREE_FILES + ["graphtage/__main__.py"],
             outside=["floats (str(float) is C code)", "the process exit status of the installed command (only the expression it is "
                      "computed from)", "text longer than the bound"])
-REGIONS = dict(mset_duplicates=lambda w, f: th.has_duplicate_members(w))
+REGIONS = dict(mset_duplicates=lambda w, f: th.matcher_collapse_region(w))
 
 
 def bounds_text(tier):
